@@ -181,6 +181,11 @@ func Yield() {}
 // PoolNondet makes sync.Pool.Get return any pooled object or a new one (engine only).
 func PoolNondet(on bool) {}
 
+// SolverHint selects the solver route for the queries of this path: "int" sends the (unchanged) bit-vector
+// text to cvc5 --solve-bv-as-int=sum first, which decides multiply/divide-by-constant kernels that
+// bit-blasting does not (engine only).
+func SolverHint(route string) {}
+
 // Budget raises the per-path step budget (engine only).
 func Budget(steps int) {}
 
